@@ -317,7 +317,15 @@ def run_scenario(scn, scratch, tid=0, keep=False):
         w.observe('init')
         out['dtrees'] = []
         for st in scn['steps']:
-            run_step(w, st, out['results'])
+            r = run_step(w, st, out['results'])
+            # the operator's part of the recovery contract: whenever Bert-E reports the queues out of order
+            # after a fault, the documented queue reset is applied and the event delivered again
+            if scn.get('fault') and st['a'] in ('eval_pr', 'eval_commit', 'eval_child') and isinstance(r, dict) \
+                    and r.get('status') in ('QueueOutOfOrder', 'IncoherentQueues') and 'crash_at' not in st \
+                    and 'reject' not in st and 'third' not in st:
+                w.api_job('RebuildQueues')
+                w.drain()
+                run_step(w, st, out['results'])
             if st['a'] in ('eval_pr', 'eval_commit', 'api', 'eval_child'):
                 out['dtrees'].append(dest_trees(w))
     except Exception:
